@@ -123,6 +123,11 @@ theorem labels_bound (ns : List Node) (buf : List Instr) (clear : Bool) (k : Nat
       simp [printNodes, labelsFrom, labelIdx_append, labelIdx_flushBlock, labelIdx_ensureClear,
         instrLines_flushBlock, instrLines_ensureClear, instrLines_icomments, labelIdx_icomments, ih]
 
+theorem labels_bound_function (names) (f : Function) :
+    labelIdx (printFunction names f) 0 = labelsFrom f.nodes 0 := by
+  unfold printFunction requiresLine
+  split <;> simp [labelIdx, labels_bound]
+
 /-! ## 3. One TEXT line per function, in file order -/
 
 def textLines : List SLine → List (Txt × Option (List Tok) × Int × Int)
